@@ -24,8 +24,8 @@ let run_hist (noop : bool) (step : world -> wop -> (world * out) res) (nslots : 
         (match c with
          | "go" when (match cb_owner_at !w (ni (arg 1)) with None -> true | Some (i, _) -> not (created (int_of_nat i))) ->
            add (match cb_owner_at !w (ni (arg 1)) with None -> "go=dead" | Some _ -> "go=notcreated")
-         | ("l" | "il" | "gs" | "lb" | "ilb") when not (created (arg 1)) -> add (c ^ "=notcreated")
-         | "lb" | "ilb" -> if noop then add (c ^ "=skip") else
+         | ("l" | "il" | "gs" | "lb" | "ilb" | "fa") when not (created (arg 1)) -> add (c ^ "=notcreated")
+         | "lb" | "ilb" | "fa" -> if noop then add (c ^ "=skip") else
              (* by-name lookup through a reused caller buffer: the address is the named function's, whatever was looked up before *)
              let op = if c = "lb" then WLookup (ni (arg 1), zi (arg 2)) else WILookup (ni (arg 1), zi (arg 2)) in
              (match apply op with
